@@ -307,6 +307,9 @@ def explains(f, site):
     fn = norm_func(site["func"])
     if cls == "peerclose":
         return sig.startswith("close-of-closed-channel") or sig.startswith("send-on-closed-channel")
+    if cls == "detailsuse":
+        # a use of session details under the wrong lock / none: a data race (or the runtime's own map check)
+        return sig.startswith("data-race") or sig.startswith("concurrent-map-access")
     if cls == "msgsend":
         return sig.startswith("nil-dereference")
     if cls == "panic":
@@ -371,18 +374,26 @@ def do_replay(path):
                    "slice-bounds": "entry_never_panics", "close-of-closed-channel": "peer_closed_once (close_elsewhere_refuted)",
                    "send-on-closed-channel": "no_send_after_close (close_elsewhere_refuted / close_before_removal_refuted)",
                    "nil-dereference": "nil_message_never_delivered", "explicit": "policy_panic_unreachable / explicit panic guards",
-                   "data-race": "(not modelled: sampling only)", "wedge": "(not modelled: sampling only)", "hang": "(not modelled: sampling only)"}
+                   "data-race": "session_details_race_free (details_wrong_lock_refuted) for uses of session details; other races: sampling only", "wedge": "(not modelled: sampling only)", "hang": "(not modelled: sampling only)"}
             cls = (obj.get("signature") or "").split("@")[0].split(":")[0]
             print("MODEL   : theorem concerned: %s" % thm.get(cls, "entry_never_panics"))
             if hit:
-                print("          the site table of the current tree REJECTS (model predicts a panic):")
+                print("          the site table of the current tree REJECTS (the model predicts a failure):")
                 for s in hit:
                     print("            " + describe_site(s))
             else:
-                print("          the site table of the current tree has %d rejected site(s), none in the recorded trace: the model predicts no panic here" % len(unsafe))
+                print("          the site table of the current tree has %d rejected site(s), none in the recorded trace: the model predicts no failure here" % len(unsafe))
         except RuntimeError as e:
             print("MODEL   : translator failed: %s" % str(e)[-300:])
-        rc, out = common.run([exe, "replay", "-history", hp, "-times", "3"], timeout=600)
+        cmd = [exe, "replay", "-history", hp, "-times", "3"]
+        if (obj.get("signature") or "").startswith("data-race"):
+            rexe, rlog = common.go_build("./cmd/c04drive", race=True)
+            if rexe is None:
+                print("cannot build the -race harness:\n" + rlog[-2000:], file=sys.stderr)
+                return 3
+            cmd += ["-worker-exe", rexe]
+            print("          (the history is replayed under the race detector)")
+        rc, out = common.run(cmd, timeout=900)
         print("IMPLEMENTATION (router in a child process, 3 runs):")
         print(out)
         died = '"router_died_or_wedged": true' in out
@@ -490,6 +501,33 @@ def main(tier, replay):
         raise RuntimeError("the harness produced no results:\n" + log[-3000:])
     absorb("main", res)
 
+    # the race detector (sampling): thorough runs the concurrency-heavy
+    # streams under a -race build; quick runs only the session-details
+    # scenario (modify_details loop on a subscriber / caller / publisher
+    # against filtered publishes, disclosed calls and the session meta
+    # procedures), which takes a few seconds
+    race_note = "race build not available"
+    rexe, rlog = common.go_build("./cmd/c04drive", race=True)
+    if rexe is None:
+        race_note = "race build failed: " + rlog[-300:]
+    elif tier == "quick":
+        rres, rlog = run_streams(exe, "quick", "race", ["-workers", "3", "-worker-exe", rexe, "-race", "-streams", "burst",
+                                 "-only", "details-race", "-budget", "25s"], timeout=600)
+        if rres is None:
+            race_note = "race run produced no results: " + rlog[-300:]
+        else:
+            absorb("race", rres)
+            race_note = "quick: session-details scenario only: %d histories, %d messages under -race, %d findings" % (
+                rres["histories"], rres["messages_sent"], len(rres.get("findings") or []))
+    else:
+        rres, rlog = run_streams(exe, "thorough", "race", ["-workers", str(max(2, common.NPROC // 2)), "-worker-exe", rexe, "-race",
+                                 "-streams", "burst,repeat,disconnect,random,states", "-budget", "8m"], timeout=1200)
+        if rres is None:
+            race_note = "race run produced no results: " + rlog[-300:]
+        else:
+            absorb("race", rres)
+            race_note = "%d histories, %d messages under -race, %d findings" % (rres["histories"], rres["messages_sent"], len(rres.get("findings") or []))
+
     # 3. accessor correspondence (needs the Coq lock: after the obligations)
     th.join()
     acc = accessor_cases(exe, tier)
@@ -502,21 +540,6 @@ def main(tier, replay):
             rc, out = common.run(["coqchk", "-silent", "-Q", ".", "Nexus", "Nexus.Props.C04"], cwd=common.COQ, timeout=1500)
         coqchk_ok = rc == 0
         coqchk_note = "coqchk -silent Nexus.Props.C04: %s" % ("ok" if coqchk_ok else "FAILED: " + out[-500:])
-
-    # thorough: the same kind of streams under the race detector (sampling)
-    race_note = "not run (quick tier)"
-    if tier == "thorough":
-        rexe, rlog = common.go_build("./cmd/c04drive", race=True)
-        if rexe is None:
-            race_note = "race build failed: " + rlog[-300:]
-        else:
-            rres, rlog = run_streams(exe, "thorough", "race", ["-workers", str(max(2, common.NPROC // 2)), "-worker-exe", rexe, "-race",
-                                     "-streams", "burst,repeat,disconnect,random,states", "-budget", "8m"], timeout=1200)
-            if rres is None:
-                race_note = "race run produced no results: " + rlog[-300:]
-            else:
-                absorb("race", rres)
-                race_note = "%d histories, %d messages under -race, %d findings" % (rres["histories"], rres["messages_sent"], len(rres.get("findings") or []))
 
     # 4. obligations that do not hold: aim the stream at the offending sites
     obligations = coq.get("obligations", [])
@@ -545,6 +568,8 @@ def main(tier, replay):
             plans.append(("delivery", ["-streams", "frames,states", "-only", "frames/,states/raw,states/ws,states/local"]))
         if any(s["class"] == "peerclose" for s in unexplained):
             plans.append(("close", ["-streams", "typeconf,repeat,disconnect,burst,states", "-only", "nofeature,repeat/,disconnect/,burst/,states/"]))
+        if any(s["class"] == "detailsuse" for s in unexplained) and rexe is not None:
+            plans.append(("details", ["-worker-exe", rexe, "-race", "-streams", "burst", "-only", "details-race,burst/local/pubsub,burst/raw"]))
         if any(s["class"] == "panic" for s in unexplained) or not plans:
             plans.append(("requests", ["-streams", "repeat,random,states,burst,disconnect"]))
         for label, a in plans:
@@ -558,7 +583,10 @@ def main(tier, replay):
     # 5. verdict
     for sig in sorted(findings):
         f = findings[sig]
-        v.finding(sig, replay_obj_of(f, tier), what_of(f), tag=sig.split("@")[0].replace(":", "-")[:40])
+        ro = replay_obj_of(f, tier)
+        ro["model_rejected_sites"] = [describe_site(s) + " " + json.dumps({k: s.get(k) for k in ("guard", "key", "detail", "close_path") if s.get(k)})
+                                      for s in unsafe if explains(f, s)]
+        v.finding(sig, ro, what_of(f), tag=sig.split("@")[0].replace(":", "-")[:40])
     if broken and (unexplained or not findings):
         obj = {"kind": "obligation", "obligations": broken, "repo": common.REPO,
                "unsafe_sites_without_a_failing_input": [describe_site(s) for s in unexplained],
